@@ -137,6 +137,9 @@ func TestPropIPClient(t *testing.T) {
 	vt.Check(t, 220, 1500, func(t *rapid.T) {
 		capt := &netlab.Capture{}
 		c := &client.IPClient{Log: capt.Logger(), InterleavedMode: rapid.IntRange(0, 3).Draw(t, "interleaved") > 0}
+		// a local address that names its interface makes the client ask for hardware timestamps only; the loopback
+		// interface has none, so the client has to do without kernel transmit/receive timestamps
+		la := &net.UDPAddr{IP: laddr.IP, Zone: rapid.SampledFrom([]string{"", "", "", "lo"}).Draw(t, "zone")}
 		srvA.Forget()
 		srvB.Forget()
 		srvA.ClearPlans()
@@ -226,7 +229,7 @@ func TestPropIPClient(t *testing.T) {
 			ctx, cancel := context.WithTimeout(context.Background(), time.Duration(rapid.IntRange(40, 90).Draw(t, "deadline-ms"))*time.Millisecond)
 			raddr := &net.UDPAddr{IP: append(net.IP(nil), curAddr.IP...), Port: curAddr.Port}
 			ci.a = netlab.Now()
-			ts, off, err := client.MeasureClockOffsetIP(ctx, c.Log, c, laddr, raddr)
+			ts, off, err := client.MeasureClockOffsetIP(ctx, c.Log, c, la, raddr)
 			ci.b = netlab.Now()
 			cancel()
 			cur.WaitIdle()
@@ -235,7 +238,7 @@ func TestPropIPClient(t *testing.T) {
 			var evaluated []netlab.Record
 			for _, r := range recs {
 				if strings.Contains(r.Msg, "failed to read packet tx timestamp") || strings.Contains(r.Msg, "failed to read packet rx timestamp") {
-					ci.fallback = true
+					labels["timestamp-fallback"]++ // no kernel timestamp: the bound must hold all the same (fallback readings err on the safe side)
 				}
 				if r.Msg == "evaluated response" {
 					evaluated = append(evaluated, r)
